@@ -31,6 +31,7 @@ Ltac frw :=
 
 Ltac fwd_or :=
   repeat match goal with
+         | H : ?a = ?a \/ _ -> _ |- _ => specialize (H (or_introl eq_refl))
          | H : ?P \/ _ -> _, Hp : ?P |- _ => specialize (H (or_introl Hp))
          | H : _ \/ ?Q -> _, Hq : ?Q |- _ => specialize (H (or_intror Hq))
          | H : _ \/ ?Q \/ _ -> _, Hq : ?Q |- _ => specialize (H (or_intror (or_introl Hq)))
@@ -38,6 +39,7 @@ Ltac fwd_or :=
 
 Ltac fin2 :=
   intros; inj_some; do 3 (fwd_exact; fwd_or; spec_some; vsimp; frw);
+  try (exfalso; match goal with H : ?b = true, H' : negb ?b = true |- _ => rewrite H in H'; discriminate H' end);
   try solve [ assumption | congruence | discriminate | lia
             | repeat match goal with |- _ /\ _ => split end; intros; inj_some; vsimp;
               (assumption || congruence || discriminate || lia || eauto) ].
